@@ -108,8 +108,8 @@ def x9(ctx, tab, sites, scc=()):
         for i, (arg, pn) in enumerate(zip(call['args'], pnames)):
             if pn not in TRACKED:
                 continue
-            if pn == 's' and len(pnames) < 2:
-                continue   # single-argument string helpers: `s` is not "the text being preprocessed" there
+            if len(pnames) < 2 and pn not in DEPTH:
+                continue   # single-argument helpers: the parameter's name says nothing about threading there
             n += 1
             kind, what = transfer(arg, pn)
             key = '%s:%s->%s:%s' % (crate, caller, callee, pn)
@@ -159,7 +159,10 @@ def x9(ctx, tab, sites, scc=()):
                     continue   # a local holding the text to preprocess (file contents, expansion): W6 / X13 decide which
                 r.fail(key + ':other-var', where, '%s passes `%s` for `%s` of %s' % (caller, what, pn, callee))
                 continue
-            r.fail(key + ':expr', where, '%s passes the expression `%s` for `%s` of %s (unmodelled: fail closed)' % (caller, what, pn, callee))
+            if pn in DEPTH or pn in ('strip_comments', 'ignore_include', 'allow_incomplete', 'incomplete'):
+                r.fail(key + ':expr', where, '%s passes the expression `%s` for `%s` of %s: a flag or counter must be forwarded as it was received' % (caller, what, pn, callee))
+            else:
+                r.undecided(key + ':expr', where, '%s passes the expression `%s` for `%s` of %s: not a form whose value the rule can name' % (caller, what, pn, callee))
     r.floor('tracked_argument_bindings', n, 60)
     return r
 
